@@ -17,7 +17,7 @@ var words = []string{
 	"alpha", "beta", "gamma", "delta", "item", "knot", "decl", "stmt", "expr", "name", "worth", "list", "block",
 	"entry", "pair", "elem", "term", "atom", "unit", "field", "member", "clause", "group", "scope", "label",
 	"arg", "param", "body", "head", "tail", "kind", "mode", "ref", "route", "key", "attr", "prop", "spec", "part",
-	"q", "w", "zz", "ab", "io",
+	"q", "w", "zz", "ab", "io", "package",
 }
 
 // goish are identifiers that are keywords or predeclared in Go or that textmapper
